@@ -164,3 +164,29 @@ pub fn rpow(b: &BigRational, n: i64) -> Option<BigRational> {
         Some(num::pow(b.recip(), (-n) as usize))
     }
 }
+
+/// A unit word of `q` that the tool rejects on its own (`1 <word>` is an error), if any.
+/// Decided structurally - by asking the tool about the word alone - never by the wording of an
+/// error message. Words glued to a preceding digit (`1e3`, `2m`) are skipped.
+pub fn rejected_unit_word(db: &anything::Db, q: &str) -> Option<String> {
+    let cs: Vec<char> = q.chars().collect();
+    let mut i = 0;
+    while i < cs.len() {
+        if cs[i].is_alphabetic() || cs[i] == '°' {
+            let start = i;
+            while i < cs.len() && (cs[i].is_alphabetic() || cs[i] == '°') {
+                i += 1;
+            }
+            let glued = start > 0 && (cs[start - 1].is_ascii_digit() || cs[start - 1] == '.');
+            let w: String = cs[start..i].iter().collect();
+            if !glued && w != "to" {
+                if let Ok(Res::Err { .. }) = eval_one(db, &format!("1 {w}")) {
+                    return Some(w);
+                }
+            }
+        } else {
+            i += 1;
+        }
+    }
+    None
+}
